@@ -9,7 +9,7 @@ from hypothesis import strategies as st
 from hypothesis.stateful import RuleBasedStateMachine, initialize, rule
 
 from .. import gen
-from ..harness import Clause, Prop, require
+from ..harness import Clause, Prop, require, rt
 from ..oracles import ALIASES, CONFIGS, METRICS, rate, ref_cm
 
 STR_NAMES = ["a", "b", "c_d", "_", "é", "group 1", "x_y_z", "B"]
@@ -119,8 +119,10 @@ def check_object(g, d, thr, ctx, swapped=False):
     names = present_names(d)
     require([_norm(x) for x in g.groups.tolist()] == [_norm(x) for x in names], "grp:names",
             f"{ctx}: groups {g.groups.tolist()} expected {names}")
-    sc = g.score_class.value
-    ec = g.equal_class.value
+    # the configuration the object was asked to have (d is already the class-swapped record for swap())
+    sc, ec = d["sc"], d["ec"]
+    require(g.score_class.value == sc and g.equal_class.value == ec, "grp:flags",
+            f"{ctx}: object has {g.score_class.value}/{g.equal_class.value}, requested {sc}/{ec}")
     P = "neg" if swapped else "pos"
     total = np.zeros(thr.shape + (2, 2), dtype=int)
     gcm = g.group_cm(thr).matrix
@@ -312,7 +314,7 @@ def check_sampling(case):
     for (s_, lab, cl), c in src_t.items():
         gc[lab] += c
     np.random.seed(case["seed"])
-    cfg = BootstrapConfig(sampling_method=method, stratified_sampling=strat)
+    cfg = BootstrapConfig(sampling_method=rt(method), stratified_sampling=rt(strat))
     for j in range(case["reps"]):
         b = g.bootstrap_sample(cfg)
         check_one_sample(g, src_t, names, b, method, strat,
@@ -365,8 +367,8 @@ def check_history(case):
             for (s_, lab, cl), c in cur_src.items():
                 gc[lab] += c
             np.random.seed(st_["seed"])
-            b = g.bootstrap_sample(BootstrapConfig(sampling_method=st_["method"],
-                                                   stratified_sampling=st_["strat"]))
+            b = g.bootstrap_sample(BootstrapConfig(sampling_method=rt(st_["method"]),
+                                                   stratified_sampling=rt(st_["strat"])))
             check_one_sample(g, cur_src, names, b, st_["method"], st_["strat"], ctx, gc)
             g = b
             cur_src = triples(g)
